@@ -278,6 +278,14 @@ func checkC06(c *Ctx) error {
 			if run, ok = cli.DoAfter(w, "", nil, dir, out, "build", "-i", "in.yaml", "-o", out); ok {
 				c.Add("runs_over_an_earlier_generated_output", 1)
 			}
+		} else if i%8 == 3 {
+			// the configuration arrives through a named pipe (next to an empty one in a regular file)
+			var seen bool
+			if run, seen = cli.DoPiped(w, "", nil, dir, out, "in.yaml", yaml, "build", "-i", "in.yaml", "-o", out); seen {
+				c.Add("runs_with_the_configuration_read_from_a_pipe", 1)
+			} else {
+				c.Add("runs_with_a_pipe_the_tool_did_not_read_completely", 1)
+			}
 		} else {
 			run = cli.Do(w, "", nil, dir, out, "build", "-i", "in.yaml", "-o", out)
 		}
